@@ -1,9 +1,12 @@
 /-
 C12 concrete model `B`: transcription of /repo/graph/properties.go (Properties: Set, SetAll, Delete, Get,
 GetOrDefault, Exists, Len, Clone, Merge, ModifiedProperties, DeletedProperties), /repo/graph/kind.go
-(Kinds.Add / Kinds.Remove) and /repo/graph/node.go (Node.AddKinds / DeleteKinds / Merge), *as the code is*:
-`Props.merge` / `Ent.mergeKinds` reproduce finding F4 (DESIGN §5); `Props.mergeFixed` / `Ent.mergeKindsFixed`
-are the minimally repaired versions (hooks/C12-fix.patch).  Core Lean only (the driver imports this file).
+(Kinds.Add / Kinds.Remove), /repo/graph/node.go (Node.AddKinds / DeleteKinds / Merge) and
+/repo/graph/relationships.go (Relationship.Merge), *as the code is*: `Props.merge` / `Ent.mergeKinds` are the merges
+of /repo since commit 179da67 ("fix: graph: Merge leaves taken-over keys and kinds in the deleted sets");
+`Props.mergeOld` / `Ent.mergeKindsOld` are the merges before that commit and reproduce finding F4 (DESIGN §5) —
+they are kept for the refutation theorems (`…_old`) and for replaying old cases (`mode old`).
+Core Lean only (the driver imports this file).
 
 Keys, values and kinds are `Nat` codes (value `0` is Go `nil`).  A Go map is an association list read by
 first match (`lookup`); `insert`/`erase` keep at most one binding per key.  A Go `map[string]struct{}` is a
@@ -133,6 +136,31 @@ def Props.getOrDefault (s : Props) (k : Key) (d : Val) : Val :=
   | none => d
   | some m => orDefault (lookup m k) d
 
+/-- the fallback loop of `GetWithFallback`: the first fallback key that is present with a non-nil value -/
+def firstFallback (m : KV) : List Key → Option Val
+  | [] => none
+  | k :: ks =>
+    match lookup m k with
+    | some v => if v = 0 then firstFallback m ks else some v
+    | none => firstFallback m ks
+
+/-- `Properties.GetWithFallback(k, d, fallbackKeys...).Any()`: the stored value if present and non-nil; the default if
+present but nil (fallbacks are NOT consulted then); if absent, the first fallback key with a non-nil value, else the
+default. -/
+def Props.getWithFallback (s : Props) (k : Key) (d : Val) (fb : List Key) : Val :=
+  match s.map with
+  | none => d
+  | some m =>
+    match lookup m k with
+    | some v => if v = 0 then d else v
+    | none => (firstFallback m fb).getD d
+
+/-- `Properties.Keys(nil)`: the keys of the map (the Go code sorts them; the driver sorts for the dump) -/
+def Props.keys (s : Props) : List Key :=
+  match s.map with
+  | none => []
+  | some m => keysOf m
+
 /-- `Properties.Len` -/
 def Props.len (s : Props) : Nat :=
   match s.map with
@@ -156,27 +184,25 @@ def mergeMap (sm : Option KV) (om : KV) : Option KV :=
   (allocIf (!om.isEmpty) sm).map (fun m => overlay m om)
 
 /-- `Properties.Merge(other)` as it is in /repo (other ≠ nil):
-1. every entry of `other.Map` is written into `s.Map`;
+1. every entry of `other.Map` is written into `s.Map` and its key removed from `s.Deleted`;
 2. every key of `other.Modified` is added to `s.Modified` and removed from `s.Deleted`;
-3. every key of `other.Deleted` is added to `s.Deleted` and removed from `s.Map` and `s.Modified`.
-Step 1 does not touch `s.Deleted`: a key deleted on `s` and merely *present* (unmodified) in `other`
-comes back into the map while staying in `Deleted` (finding F4). -/
+3. every key of `other.Deleted` is added to `s.Deleted` and removed from `s.Map` and `s.Modified`. -/
 def Props.merge (s o : Props) : Props :=
   let map1 := mergeMap s.map o.m
+  let del1 := s.deleted.map (fun x => sremAll x (keysOf o.m))
   let mod2 := (allocIf (!o.mod.isEmpty) s.modified).map (fun x => saddAll x o.mod)
-  let del2 := s.deleted.map (fun x => sremAll x o.mod)
+  let del2 := del1.map (fun x => sremAll x o.mod)
   let del3 := (allocIf (!o.del.isEmpty) del2).map (fun x => saddAll x o.del)
   { map := map1.map (fun m => eraseAll m o.del),
     modified := mod2.map (fun x => sremAll x o.del),
     deleted := del3 }
 
-/-- `Merge` with the one-line repair of hooks/C12-fix.patch: the first loop also does
-`delete(s.Deleted, otherKey)`. -/
-def Props.mergeFixed (s o : Props) : Props :=
+/-- `Properties.Merge` before commit 179da67: step 1 did not touch `s.Deleted`, so a key deleted on `s` and merely
+*present* (unmodified) in `other` came back into the map while staying in `Deleted` (finding F4). -/
+def Props.mergeOld (s o : Props) : Props :=
   let map1 := mergeMap s.map o.m
-  let del1 := s.deleted.map (fun x => sremAll x (keysOf o.m))
   let mod2 := (allocIf (!o.mod.isEmpty) s.modified).map (fun x => saddAll x o.mod)
-  let del2 := del1.map (fun x => sremAll x o.mod)
+  let del2 := s.deleted.map (fun x => sremAll x o.mod)
   let del3 := (allocIf (!o.del.isEmpty) del2).map (fun x => saddAll x o.del)
   { map := map1.map (fun m => eraseAll m o.del),
     modified := mod2.map (fun x => sremAll x o.del),
@@ -225,29 +251,37 @@ def Ent.deleteKinds (e : Ent) : List Kind → Ent
   | [] => e
   | k :: ks => (e.deleteKind k).deleteKinds ks
 
-/-- the kind part of `Node.Merge(other)` as it is in /repo. `s.Kinds.Add(other.Kinds...)` does not touch
-`s.DeletedKinds`: a kind deleted on `s` and merely present in `other` comes back while staying in
-`DeletedKinds` (finding F4, kinds shape). -/
+/-- the kind part of `Node.Merge(other)` as it is in /repo: `other.Kinds` are added and removed from
+`s.DeletedKinds`, `other.AddedKinds` are removed from `s.DeletedKinds`, `other.DeletedKinds` are removed from `s.Kinds`
+and `s.AddedKinds`, then the two delta slices are united. -/
 def Ent.mergeKinds (s o : Ent) : Ent :=
-  { s with
-    kinds := kremoveAll (kaddAll s.kinds o.kinds) o.removed,
-    added := kaddAll (kremoveAll s.added o.removed) o.added,
-    removed := kaddAll (kremoveAll s.removed o.added) o.removed }
-
-/-- repaired: kinds taken over from `other.Kinds` are also removed from `s.DeletedKinds` -/
-def Ent.mergeKindsFixed (s o : Ent) : Ent :=
   { s with
     kinds := kremoveAll (kaddAll s.kinds o.kinds) o.removed,
     added := kaddAll (kremoveAll s.added o.removed) o.added,
     removed := kaddAll (kremoveAll (kremoveAll s.removed o.kinds) o.added) o.removed }
 
-/-- `Node.Merge(other)`: kinds, then `s.Properties.Merge(other.Properties)` -/
-def Ent.merge (fixed : Bool) (s o : Ent) : Ent :=
-  if fixed then { (s.mergeKindsFixed o) with props := s.props.mergeFixed o.props }
-  else { (s.mergeKinds o) with props := s.props.merge o.props }
+/-- the kind part of `Node.Merge` before commit 179da67: `s.Kinds.Add(other.Kinds...)` did not touch
+`s.DeletedKinds`, so a kind deleted on `s` and merely present in `other` came back while staying in `DeletedKinds`
+(finding F4, kinds shape). -/
+def Ent.mergeKindsOld (s o : Ent) : Ent :=
+  { s with
+    kinds := kremoveAll (kaddAll s.kinds o.kinds) o.removed,
+    added := kaddAll (kremoveAll s.added o.removed) o.added,
+    removed := kaddAll (kremoveAll s.removed o.added) o.removed }
 
-def Props.mergeMode (fixed : Bool) (s o : Props) : Props :=
-  if fixed then s.mergeFixed o else s.merge o
+/-- `Node.Merge(other)`: kinds, then `s.Properties.Merge(other.Properties)` -/
+def Ent.merge (s o : Ent) : Ent := { (s.mergeKinds o) with props := s.props.merge o.props }
+
+/-- `Node.Merge` before commit 179da67 -/
+def Ent.mergeOld (s o : Ent) : Ent := { (s.mergeKindsOld o) with props := s.props.mergeOld o.props }
+
+/-- `old = true` selects the merges before commit 179da67 -/
+def Ent.mergeV (old : Bool) (s o : Ent) : Ent := if old then s.mergeOld o else s.merge o
+def Props.mergeV (old : Bool) (s o : Props) : Props := if old then s.mergeOld o else s.merge o
+
+/-- `Relationship.Merge(other)` is `s.Properties.Merge(other.Properties)`; a relationship has one immutable `Kind`
+and no kind delta, so in the model it is an `Ent` whose kind fields never change. -/
+def Ent.relMerge (old : Bool) (s o : Ent) : Ent := { s with props := s.props.mergeV old o.props }
 
 /-! ### Histories over two tracked entities loaded from one state -/
 
@@ -277,31 +311,34 @@ inductive Op where
   | pmerge (e f : Bool)                               -- e.Properties.Merge(f.Properties)
   | addKinds (e : Bool) (ks : List (Option Kind))
   | deleteKinds (e : Bool) (ks : List Kind)
-  | nmerge (e f : Bool)                               -- e.Merge(f)
+  | nmerge (e f : Bool)                               -- e.Merge(f)            (Node.Merge)
+  | rmerge (e f : Bool)                               -- e.Merge(f)            (Relationship.Merge)
 deriving Repr, DecidableEq, Inhabited
 
 def Ent.withProps (x : Ent) (p : Props) : Ent := { x with props := p }
 
-/-- one operation; `fixed` selects the repaired merges -/
-def St.step (fixed : Bool) (st : St) : Op → St
+/-- one operation; `old = true` selects the merges before commit 179da67 (live code: `old = false`) -/
+def St.step (old : Bool) (st : St) : Op → St
   | .set e k v => st.put e ((st.get e).withProps ((st.get e).props.set k v))
   | .setAll e kvs => st.put e ((st.get e).withProps ((st.get e).props.setAll kvs))
   | .delete e k => st.put e ((st.get e).withProps ((st.get e).props.delete k))
   | .read _ => st
   | .clone e f => st.put f ((st.get f).withProps (st.get e).props.clone)
-  | .pmerge e f => st.put e ((st.get e).withProps ((st.get e).props.mergeMode fixed (st.get f).props))
+  | .pmerge e f => st.put e ((st.get e).withProps ((st.get e).props.mergeV old (st.get f).props))
   | .addKinds e ks => st.put e ((st.get e).addKinds ks)
   | .deleteKinds e ks => st.put e ((st.get e).deleteKinds ks)
-  | .nmerge e f => st.put e ((st.get e).merge fixed (st.get f))
+  | .nmerge e f => st.put e ((st.get e).mergeV old (st.get f))
+  | .rmerge e f => st.put e ((st.get e).relMerge old (st.get f))
 
-def St.run (fixed : Bool) (st : St) : List Op → St
+def St.run (old : Bool) (st : St) : List Op → St
   | [] => st
-  | o :: ops => (st.step fixed o).run fixed ops
+  | o :: ops => (st.step old o).run old ops
 
-/-- is the operation a merge? (the `_partial` theorem covers merge-free histories of the current code) -/
+/-- is the operation a merge? (the `_old_partial` theorem covers merge-free histories of the old code) -/
 def Op.isMerge : Op → Bool
   | .pmerge _ _ => true
   | .nmerge _ _ => true
+  | .rmerge _ _ => true
   | _ => false
 
 end Dawgs.C12
